@@ -279,8 +279,59 @@ def r6_visit(run, F):
     run.require(n >= 25, "too few visit obligations (%d)" % n)
 
 
+DESLICE_TAG = {"Slice": "ArrayByView", "SlicePointer": "ArrayByPointer"}
+
+
+def r7_deslice_tag(run, F):
+    """needs_outer_mutability lets a write through `ArrayByPointer` pass without a mutable base (the program wrote `&` to get
+    the slice pointer) and demands a mutable base for `ArrayByView`.  The typer therefore may tag an automatic deslice step
+    ArrayByView only under a test for ValueType::Slice and ArrayByPointer only under a test for ValueType::SlicePointer:
+    every construction site of the two tags, against the pattern of the innermost enclosing match arm that tests one of the two."""
+    sites = 0
+    for p, b in sorted(F.lib.bodies.items()):
+        if "hir" not in b or not F.rel(b["file"]).endswith("alpha/typer.rs"):
+            continue
+
+        def visit(node, ctx):
+            nonlocal sites
+            if not isinstance(node, (dict, list)):
+                return
+            if isinstance(node, list):
+                for x in node:
+                    visit(x, ctx)
+                return
+            if node.get("k") == "Match":
+                visit(node["scrut"], ctx)
+                for a in node["arms"]:
+                    tested = set()
+                    for x in walk(a["pat"]):
+                        r = str(x.get("ctor_of") or x.get("res") or "")
+                        if r.endswith(("ValueType::Slice", "ValueType::SlicePointer")):
+                            tested.add(r.split("::")[-1])
+                    c2 = tested if tested else ctx
+                    if "guard" in a:
+                        visit(a["guard"], c2)
+                    visit(a["body"], c2)
+                return
+            r = str(node.get("ctor_of") or node.get("res") or "")
+            if node.get("k") == "Path" and not node.get("inpat") and r.endswith(("DesliceOffset::ArrayByView", "DesliceOffset::ArrayByPointer")):
+                tag = r.split("::")[-1]
+                sites += 1
+                want = set(DESLICE_TAG[t] for t in (ctx or ()))
+                run.ob("R7-DESLICE-TAG", "%s|%s under %s" % (b["npath"].split("::")[-1], tag, "/".join(sorted(ctx)) if ctx else "no test"),
+                       want == {tag}, F.where(b, node),
+                       "DesliceOffset::%s is built under a test for %s; a slice taken by view must be tagged ArrayByView (writes need a mutable base, "
+                       "E530) and only a slice pointer ArrayByPointer" % (tag, sorted(ctx) if ctx else "neither Slice nor SlicePointer"))
+            for k, v in node.items():
+                if isinstance(v, (dict, list)) and k != "pat":
+                    visit(v, ctx)
+        visit(b["hir"], None)
+    run.floor("R7-DESLICE-TAG", 4, "construction sites of ArrayByView / ArrayByPointer in the typer (4 counted)")
+
+
 def check(run):
     F = run.facts("B")
+    r7_deslice_tag(run, F)
     r1_bits(run, F)
     r2_outer(run, F)
     r3_checked_mutation(run, F)
@@ -294,6 +345,6 @@ def check(run):
     if run.tier == "thorough":
         FA = run.facts("A")
         run.key_prefix = "cfgA:"
-        for fn in (r1_bits, r2_outer, r3_checked_mutation, r4_copies, r5_hint_codes, r6_visit):
+        for fn in (r1_bits, r2_outer, r3_checked_mutation, r4_copies, r5_hint_codes, r6_visit, r7_deslice_tag):
             fn(run, FA)
         run.key_prefix = ""
